@@ -23,7 +23,7 @@ ASSUMPTIONS = ['closed feature intervals [start,end]; a range query [a,b] with a
                'strand convention for FeatureAnnotatedMolecule as documented (None unstranded, False same strand as R1, True other strand); SingleEndTranscriptFragment only checked unstranded']
 MIN_NONTRIVIAL = {'quick': 3000, 'thorough': 1000000}
 REQUIRED_MONITORS = ['ret:findFeaturesAt', 'ret:findFeaturesBetween', 'ret:findFeaturesAtPysamAlign0', 'ret:findFeaturesAtPysamAlign1',
-                     'ret:molecule.annotate0', 'ret:molecule.annotate1', 'ret:fragment.annotate', 'history:second_round_queries', 'universe:near_or_beyond_2^31', 'history:queried_without_explicit_sort', 'history:round_adding_to_one_contig_only', 'reads:aligned_bases_spelled_eq_x_only']
+                     'ret:molecule.annotate0', 'ret:molecule.annotate1', 'ret:fragment.annotate', 'history:second_round_queries', 'universe:near_or_beyond_2^31', 'history:queried_without_explicit_sort', 'history:round_adding_to_one_contig_only', 'reads:aligned_bases_spelled_eq_x_only', 'ret:findFeaturesAt_on_second_container']
 
 
 def gen_cases(tier, seed):
@@ -99,6 +99,10 @@ def run_case(case):
     header = pysam.AlignmentHeader.from_dict({'HD': {'VN': '1.6'}, 'SQ': [{'SN': c, 'LN': 100000} for c in contigs + ['unseen']]})
     fc = FeatureContainer()
     feats = {}
+    # a second container that lives next to the first one (another annotation of the same contigs, as when genes and repeats are loaded side
+    # by side): queries to the two are interleaved, each answers from its own features
+    twin = FeatureContainer()
+    twin_feats = {}
     uid = itertools.count()
     earlier_point_queries = []
     earlier_range_queries = []
@@ -146,6 +150,14 @@ def run_case(case):
                 tup = (s, e, f'f{next(uid)}', r.choice(['+', '-', '+', '-', None]), f'id{next(uid)}')
             fc.addFeature(c, tup[0], tup[1], tup[2], strand=tup[3], data=tup[4])
             feats.setdefault(c, set()).add(tup)
+        for _ in range(r.randint(0, 6)):
+            c = r.choice(contigs)
+            s_ = r.randint(0, U) + big
+            tup = (s_, s_ + r.choice([0, 1, 5, r.randint(0, U)]), f't{next(uid)}', r.choice(['+', '-', None]), f'tid{next(uid)}')
+            twin.addFeature(c, tup[0], tup[1], tup[2], strand=tup[3], data=tup[4])
+            twin_feats.setdefault(c, set()).add(tup)
+        if r.random() < 0.7:
+            twin.sort()
         # the container (re)builds its index on demand: an explicit sort() after adding is optional
         if r.random() < (0.3 if only is None else 0.7):
             hist.append(f'add{k}{"@" + only if only else ""};(no explicit sort)')
@@ -172,6 +184,15 @@ def run_case(case):
                 violate('findFeaturesAt', f'findFeaturesAt({c},{x},{st}) in round {rd}', got, exp, {'round': rd})
             if exp or near(feats, c, x):
                 acc.sigs.add(f"{case['i']}/{rd}/p/{c}/{x}/{st}")
+            if acc.evals % 5 == 0:
+                got_t = twin.findFeaturesAt(c, x, st)
+                acc.count('ret:findFeaturesAt_on_second_container')
+                exp_t = brute_point(twin_feats, c, x, st)
+                if set(got_t) != exp_t:
+                    g_, e_ = set(got_t), exp_t
+                    acc.violate('second-container:' + ('answer-of-the-other-container' if (g_ - e_) and (g_ - e_) <= brute_point(feats, c, x, st) else 'wrong-set'),
+                                f'second container findFeaturesAt({c},{x},{st}) in round {rd}: got {sorted(g_, key=repr)[:4]} expected {sorted(e_, key=repr)[:4]}',
+                                {'round': rd, 'history': hist})
         earlier_point_queries = r.sample(qs, min(len(qs), 120))
         # ---- range queries
         rq = []
